@@ -268,6 +268,57 @@ func runC11(c *core.Ctx, o Options) {
 				default:
 					ob.Fail("the compiler cannot prove this access in range and neither can the linear engine: %s", failed)
 				}
+			case *ssa.MakeSlice:
+				// make([]T, n, m) panics for n < 0, m < n or a size beyond the address space, and allocates whatever it is told:
+				// sizes must be constants or sums of lengths of existing slices (bounded by the input) — never a number read from the wire
+				_, lenConst := an.ConstInt(x.Len)
+				_, capConst := an.ConstInt(x.Cap)
+				if lenConst && capConst {
+					return
+				}
+				ob := c.Ob("bounds", fn.Name(), "allocation size of "+an.Render(x), x.Pos())
+				var failed string
+				nPaths := 0
+				for _, p := range getPaths() {
+					if !p.Passes(in) {
+						continue
+					}
+					nPaths++
+					pr := an.NewProver(fn, p, in, inv)
+					for _, sz := range []struct {
+						what string
+						v    ssa.Value
+					}{{"length", x.Len}, {"capacity", x.Cap}} {
+						l := pr.Lin(sz.v)
+						for term, coef := range l.C {
+							if coef != 0 && (!strings.HasPrefix(term, "len(") || coef < 0) {
+								failed = fmt.Sprintf("the %s %s depends on %s, which is not the length of an existing slice: a value taken from the message can be negative or huge (makeslice panics, or the process runs out of memory)", sz.what, l.String(), term)
+							}
+						}
+						if l.K < 0 && failed == "" {
+							if ok, _ := pr.Prove(l); !ok {
+								failed = fmt.Sprintf("the %s %s is not known to be non-negative", sz.what, l.String())
+							}
+						}
+					}
+					if failed == "" {
+						if ok, _ := pr.Prove(pr.Lin(x.Cap).Add(pr.Lin(x.Len), -1)); !ok {
+							failed = "capacity ≥ length is not implied"
+						}
+					}
+					if failed != "" {
+						break
+					}
+				}
+				if failed == "" && nPaths > 0 {
+					ob.Ok("sizes are sums of lengths of existing slices and constants on each of %d path(s)", nPaths)
+				} else {
+					ob.Fail("%s", failed)
+				}
+			case *ssa.MakeChan:
+				if _, isC := an.ConstInt(x.Size); !isC {
+					c.Ob("bounds", fn.Name(), "buffer size of "+an.Render(x), x.Pos()).Fail("a channel is made with the non-constant size %s on the inbound path: a negative or huge size panics", an.Render(x.Size))
+				}
 			case *ssa.TypeAssert:
 				if x.CommaOk {
 					return
@@ -355,7 +406,7 @@ func idxLow(p *an.Prover, idx ssa.Value) an.LForm {
 
 var boundsExceptionReason = "d[:offset+length-1] in the raw validation: the upper bound len(d) − len(CheckSum field) − 2 is non-negative because the BodyLength field (found, else the function returned) and the CheckSum field are disjoint stretches of d when the framing tags are distinct (assumption); the bound never exceeds len(d)"
 
-// isBoundsException: the one tabled site, identified structurally (slice of parameter d whose high bound depends on the measured length).
+// isBoundsException: the one tabled site, identified structurally (slice of parameter d whose high bound is the mirror arithmetic len(d) − |CheckSum field| − 2).
 func isBoundsException(fn *ssa.Function, in ssa.Instruction) bool {
 	sl, ok := in.(*ssa.Slice)
 	if !ok || fn.Name() != "validateRaw" || sl.Low != nil || sl.High == nil {
@@ -378,7 +429,34 @@ func isBoundsException(fn *ssa.Function, in ssa.Instruction) bool {
 			onlyChecksum = false
 		}
 	}
-	return dominated && onlyChecksum
+	// premise: the bound is len(d) − len(<one other byte string>) − 2 on every path (the mirror arithmetic; any other expression
+	// — a search result that may be −1, a parsed number — is not covered by the argument above)
+	shape := true
+	paths, _ := an.EnumPaths(fn, 4096)
+	n := 0
+	for _, p := range paths {
+		if !p.Passes(in) {
+			continue
+		}
+		n++
+		l := an.NewProver(fn, p, in, nil).Lin(sl.High)
+		pos, neg := 0, 0
+		for term, coef := range l.C {
+			switch {
+			case coef == 0:
+			case term == "len(d)" && coef == 1:
+				pos++
+			case strings.HasPrefix(term, "len(") && coef == -1:
+				neg++
+			default:
+				shape = false
+			}
+		}
+		if pos != 1 || neg != 1 || l.K != -2 {
+			shape = false
+		}
+	}
+	return dominated && onlyChecksum && shape && n > 0
 }
 
 // assertSafe: x is v.Value().(int) on a value constructed in the same function as *fix.Int.
